@@ -214,7 +214,9 @@ def run(ctx):
         if not flag or not all(x is True for x in flag):
             continue
         n_copy += 1
-        failed = bool(set(st.extra.get('root_handlers', frozenset())) & copy_handlers)
+        # "copying failed" = the exception handled by the copy's handler came out of the copy primitive itself (not out of a check the
+        # executor makes on the copy afterwards)
+        failed = any(h in copy_handlers and 'pickle_copy' in src for h, src in st.extra.get('root_handler_sources', frozenset()))
         copied = any('pickle_copy' in str(d) for d in deps)
         if not copied and not failed:
             bad = bad or (node, st)
